@@ -155,6 +155,12 @@ theorem C04_model_remove_constraint_links (s : St) (hs : s.LInv) (a b : Nat) (t 
     (h : s.removeConstraintEdgeM a b = some (t, ans)) : t.LInv :=
   hs.removeConstraintEdgeM a b t ans h
 
+/-- … and the full structural invariant of C02 / C09 (ccw faces, anchors): the triangulation stays
+valid and locate stays sound after `remove_constraint_edge` -/
+theorem C04_model_remove_constraint_valid (s : St) (hw : s.WInv) (a b : Nat) (t : St) (ans : Bool)
+    (h : s.removeConstraintEdgeM a b = some (t, ans)) : t.WInv :=
+  hw.removeConstraintEdgeM a b t ans h
+
 /-- non-vacuity: on the quadrilateral (0,0) (4,0) (6,6) (0,4) the Delaunay diagonal is 1–3; the
 constraint 0–2 is added (one flip) and removed again: the answer is `true`, the flag is gone and
 legalisation flips the diagonal back to 1–3 -/
